@@ -1053,8 +1053,61 @@ def judge(ctx, c):
         judge_badstr(ctx, c)
     elif k == 'foreign-pickle':
         judge_foreign_pickle(ctx, c)
+    elif k == 'same-file':
+        judge_same_file(ctx, c)
     else:
         raise KeyError(k)
+
+
+# ---- several objects over ONE file: the whole of it, its first n bits, a window further in ---------------------------------------
+def judge_same_file(ctx, c):
+    made = []
+    try:
+        with util.options(lsb0=False):
+            raw = to_raw(c['bits'])
+            path = write_file(raw, made)
+            objs = []
+            for cls, off, ln, via in c['views']:
+                kw = {}
+                if off is not None:
+                    kw['offset'] = off
+                if ln is not None:
+                    kw['length'] = ln
+                if via == 'handle':
+                    with open(path, 'rb') as fh:
+                        o = CLASSES[cls](fh, **kw)
+                elif via == 'bytes':
+                    o = CLASSES[cls](bytes=raw, **kw)
+                else:
+                    o = CLASSES[cls](filename=path, **kw)
+                want = c['bits'][(off or 0):] if ln is None else c['bits'][(off or 0):(off or 0) + ln]
+                objs.append((o, want, cls, via))
+            for i, (x, bx, cx, vx) in enumerate(objs):
+                for j, (y, by, cy, vy) in enumerate(objs):
+                    exp = bx == by
+                    got = call(lambda: (x == y, x != y))
+                    ctx.op('eq-same-file', 'ok' if got[0] == 'ok' else type(got[1]).__name__)
+                    ic = f'{"same" if i == j else "two"}-objects,{vx}/{vy},{"equal" if exp else "different"}-content'
+                    if got != ('ok', (exp, not exp)):
+                        ctx.mismatch(f'C13|eq-same-file|{ic}|{"raised" if got[0] == "exc" else "wrong"}', c, f'{cx}({vx}) {len(bx)} bits vs {cy}({vy}) {len(by)} bits: {got[1]!r:.60}')
+                    elif exp and cx in IMMUTABLE and cy in IMMUTABLE and hash(x) != hash(y):
+                        ctx.mismatch(f'C13|hash-same-file|{ic}|equal-but-hash-differs', c, f'{len(bx)} bits')
+                    else:
+                        ctx.ok(('same-file', vx, vy, exp, i == j), True)
+    finally:
+        drop_files(made)
+
+
+def gen_same_file(ctx):
+    rng = ctx.rng
+    nbytes = rng.choice([2, 5, 8, 300])
+    bits = util.content(rng, nbytes * 8)
+    total = nbytes * 8
+    n = rng.choice([1, 7, 8, 12, total - 1, total - 8])
+    views = [[rng.choice(util.CLASS_NAMES), None, None, 'name'], [rng.choice(IMMUTABLE), None, n, 'name'], [rng.choice(IMMUTABLE), None, total, 'name'],
+             [rng.choice(util.CLASS_NAMES), 0, n, 'handle'], [rng.choice(IMMUTABLE), None, n, 'bytes'], [rng.choice(IMMUTABLE), 8, None, 'name'],
+             [rng.choice(IMMUTABLE), None, None, 'handle'], [rng.choice(IMMUTABLE), None, rng.choice([n, max(n - 1, 0)]), 'name']]
+    return {'kind': 'same-file', 'bits': bits, 'views': views}
 
 
 # ---- objects that were pickled by ANOTHER interpreter (other hash salt) ------------------------------------------------
@@ -1214,6 +1267,8 @@ def run(ctx):
         enumerate_small_pairs(ctx)
         for _ in range(1 if ctx.quick else 3):
             ctx.run_case(judge, gen_foreign_pickle(ctx))
+        for _ in range(ctx.scale(60, 1200)):
+            ctx.run_case(judge, gen_same_file(ctx))
         n = ctx.scale(30000, 900000)
         for i in range(n):
             c = gen_objs_case(ctx) if ctx.rng.random() < 0.72 else gen_operand_case(ctx)
